@@ -3,6 +3,7 @@ package builder
 import (
 	"errors"
 	"fmt"
+	"sort"
 
 	"github.com/mna/pigeon/ast"
 )
@@ -31,9 +32,18 @@ func PrepareGrammar(grammar *ast.Grammar) (bool, error) {
 
 // ComputeNullables evaluates nullable nodes.
 func ComputeNullables(rules map[string]*ast.Rule) {
-	// Compute which rules in a grammar are nullable
-	for _, rule := range rules {
-		rule.NullableVisit(rules)
+	// Compute which rules in a grammar are nullable.
+	// Rules are visited in a fixed order: the result of NullableVisit for
+	// rules that are part of a cycle depends on the rule the visit starts
+	// from, so following the map iteration order would make the generated
+	// parser differ from one run to the next.
+	names := make([]string, 0, len(rules))
+	for name := range rules {
+		names = append(names, name)
+	}
+	sort.Strings(names)
+	for _, name := range names {
+		rules[name].NullableVisit(rules)
 	}
 }
 
